@@ -14,3 +14,10 @@ _share_perm = dict(component="specshare", require="Corr.SpecCorr", require_vo="C
                    evals=dict(M="share_mismatches", V="c12_share_violations", NT="c12_share_nontrivial"), counts=("NT",))
 EXTRA_RUNS["C18"] = [_share_perm]
 EXTRA_RUNS["C10"] = [dict(_share_perm)]
+
+# C09: "hosts persist State as JSON" (sio/stdio.go, cmd/mcrew/storage.go are among its anchors): the crew histories with
+# the real Stdio as store (restart at every boundary, idle sessions in between) and the mcrew operation sequences
+# (memory vs bolt store after every operation) also run for C09
+from checklib.props_mcrew import PROPS as _MC
+EXTRA_RUNS["C09"] = [sio_run("c15", "c15_mismatches", "c15_violations", "c15_nontrivial", (200, 4000)),
+                     dict([r for r in _MC["C16"]["runs"] if r["component"] == "mcrewseq"][0], n=dict(quick=160, thorough=1600))]
